@@ -381,11 +381,11 @@ where
 //@ with
 -> (r: Option<usize>)
 //@ rewrite
-false => edges
+edges
                         .iter()
                         .filter(|e|
 //@ with
-false => vcount_filter(&edges, |e: &&&Arc<Edge<T, A>>| -> (b: bool)
+vcount_filter(&edges, |e: &&&Arc<Edge<T, A>>| -> (b: bool)
                     requires key_model_ok::<T>(),
                     ensures b == edge_is_loop_on(**e, &node_name),
                 {
@@ -394,7 +394,7 @@ false => vcount_filter(&edges, |e: &&&Arc<Edge<T, A>>| -> (b: bool)
                         .count(),
 //@ with
  }),
-//@ before let self_loops_count = match self.specs.directed {
+//@ after let total_count = edges.len();
                 let ghost ev = edges@;
 //@ before Some(total_count + self_loops_count)
                 proof {
